@@ -52,6 +52,7 @@ struct object_t
     std::vector<simfs::write_call> calls;
     std::string                    repr; // representation of the ORIGINAL object
     reader_t                       reader;
+    reader_t                       reader_into_used; // the same read INTO an object that already holds other state (optional)
     std::function<void(std::ostream&)> writer;
 };
 
@@ -227,6 +228,19 @@ object_t make_tensor_object(vrng& r)
         ok = static_cast<bool>(s);
         return ok ? serialize(t) : std::string();
     };
+    typename ttensor::tdims used_dims;
+    for (size_t i = 0; i < trank; ++i)
+    {
+        used_dims[i] = r.range(1, 3);
+    }
+    obj.reader_into_used = [used_dims](std::istream& s, bool& ok)
+    {
+        ttensor t(used_dims);
+        t.full(static_cast<tscalar>(7));
+        ::nano::read(s, t);
+        ok = static_cast<bool>(s);
+        return ok ? serialize(t) : std::string();
+    };
     obj.repr = serialize(tensor);
     return obj;
 }
@@ -308,6 +322,16 @@ object_t make_parameter(vrng& r)
         ok = static_cast<bool>(s);
         return ok ? serialize(p) : std::string();
     };
+    const auto used_kind = r.next() % 3;
+    obj.reader_into_used = [used_kind](std::istream& s, bool& ok)
+    {
+        auto p = used_kind == 0   ? parameter_t::make_string("used", "some longer value than most")
+                 : used_kind == 1 ? parameter_t::make_enum("used", feature_type::uint32)
+                                  : parameter_t::make_integer_pair("used", 0, LE, 3, LT, 7, LE, 100);
+        ::nano::read(s, p);
+        ok = static_cast<bool>(s);
+        return ok ? serialize(p) : std::string();
+    };
     obj.repr = serialize(param);
     return obj;
 }
@@ -345,6 +369,16 @@ object_t make_feature(vrng& r)
     obj.reader = [](std::istream& s, bool& ok)
     {
         feature_t f;
+        ::nano::read(s, f);
+        ok = static_cast<bool>(s);
+        return ok ? serialize(f) : std::string();
+    };
+    const auto used_kind = r.next() % 3;
+    obj.reader_into_used = [used_kind](std::istream& s, bool& ok)
+    {
+        auto f = used_kind == 0   ? feature_t{"used"}.sclass(strings_t{"l0", "l1", "l2", "l3", "l4", "l5", "l6", "l7", "l8", "l9", "l10", "l11"})
+                 : used_kind == 1 ? feature_t{"used"}.scalar(feature_type::float64, make_dims(3, 2, 2))
+                                  : feature_t{"used"}.mclass(strings_t{"a", "b", "c"});
         ::nano::read(s, f);
         ok = static_cast<bool>(s);
         return ok ? serialize(f) : std::string();
@@ -468,6 +502,19 @@ object_t make_wlearner(vrng& r, ctx_t& c)
         ok = static_cast<bool>(s) && p != nullptr;
         return ok ? serialize(p) + "|" + prediction_bits(*p, probe) : std::string();
     };
+    obj.reader_into_used = [probe, fitted](std::istream& s, bool& ok)
+    {
+        // the same layout read by hand into a copy of the FITTED learner: the stream replaces its state, it does not add to it
+        rwlearner_t p = fitted->clone();
+        string_t    id;
+        ok = static_cast<bool>(::nano::read(s, id)) && id == fitted->type_id();
+        if (ok)
+        {
+            p->read(s);
+            ok = static_cast<bool>(s);
+        }
+        return ok ? serialize(p) + "|" + prediction_bits(*p, probe) : std::string();
+    };
     {
         simfs::sink_buf buf;
         std::ostream    s(&buf);
@@ -511,6 +558,18 @@ object_t make_linear(vrng& r, ctx_t& c)
         rlinear_t p;
         ::nano::read(s, p);
         ok = static_cast<bool>(s) && p != nullptr;
+        return ok ? serialize(p) + "|" + prediction_bits(*p, probe) : std::string();
+    };
+    obj.reader_into_used = [probe, model](std::istream& s, bool& ok)
+    {
+        rlinear_t p = model->clone();
+        string_t  id;
+        ok = static_cast<bool>(::nano::read(s, id)) && id == model->type_id();
+        if (ok)
+        {
+            p->read(s);
+            ok = static_cast<bool>(s);
+        }
         return ok ? serialize(p) + "|" + prediction_bits(*p, probe) : std::string();
     };
     {
@@ -561,6 +620,13 @@ object_t make_gboost(vrng& r, ctx_t& c)
     obj.reader = [probe](std::istream& s, bool& ok)
     {
         gboost_model_t m;
+        ::nano::read(s, m);
+        ok = static_cast<bool>(s);
+        return ok ? serialize(m) + "|" + prediction_bits(m, probe) : std::string();
+    };
+    obj.reader_into_used = [probe, model](std::istream& s, bool& ok)
+    {
+        gboost_model_t m = *model; // a fitted model: the stream replaces its weak learners, it does not append to them
         ::nano::read(s, m);
         ok = static_cast<bool>(s);
         return ok ? serialize(m) + "|" + prediction_bits(m, probe) : std::string();
@@ -757,6 +823,24 @@ void body(ctx_t& c)
         {
             c.fail("roundtrip-differs", obj.kind + ": the object read back is not observationally identical (parameters or predictions differ)");
         }
+    }
+
+    if (obj.reader_into_used && !c.failed())
+    {
+        auto used   = obj;
+        used.reader = obj.reader_into_used;
+        const auto a = attempt(used, obj.bytes, len, false, r.next());
+        ++reads;
+        if (a.result != outcome::success)
+        {
+            c.fail("roundtrip-rejected", obj.kind + ": a complete valid stream was not accepted by an object that already held other state (" +
+                                             outcome_name(a.result) + " " + a.what + ")");
+        }
+        else if (a.repr != obj.repr)
+        {
+            c.fail("roundtrip-differs", obj.kind + ": read into an object that already held other state, the result is not observationally identical");
+        }
+        c.probe("roundtrip_into_used_object");
     }
 
     // (2) every truncation offset: clean EOF and I/O error
